@@ -203,12 +203,14 @@ Theorem bind_batch_break_refuted :
     exists k, k ∈ c_errq (run eps0 c (batch_events l)) /\ k ∈ c_errq (fst (bind_batch eps0 c l)) /\
               k ∉ c_errq (fst (bind_batch_break eps0 c l)).
 Proof.
-  exists batch_state, batch_ctxs. split; [repeat constructor; simpl; lia|]. split; [vm_compute; reflexivity|].
+  exists batch_state, batch_ctxs.
+  split; [unfold faults_ok, batch_ctxs; repeat (apply Forall_cons; split; [simpl; split; discriminate|]); apply Forall_nil; exact Logic.I|].
+  split; [vm_compute; reflexivity|].
   exists (2%positive, 3%positive).
   assert (E1 : c_errq (run eps0 batch_state (batch_events batch_ctxs)) = [(2%positive, 1%positive); (2%positive, 3%positive)]) by (vm_compute; reflexivity).
   assert (E2 : c_errq (fst (bind_batch eps0 batch_state batch_ctxs)) = [(2%positive, 1%positive); (2%positive, 3%positive)]) by (vm_compute; reflexivity).
   assert (E3 : c_errq (fst (bind_batch_break eps0 batch_state batch_ctxs)) = [(2%positive, 1%positive)]) by (vm_compute; reflexivity).
-  rewrite E1, E2, E3. split; [set_solver|]. split; [set_solver|]. intros H. apply elem_of_list_singleton in H. discriminate.
+  rewrite E1, E2, E3. split; [right; left|]. split; [right; left|]. intros H. apply elem_of_list_singleton in H. discriminate.
 Qed.
 
 (* non-vacuity of bind_batch_errq / bind_batch_law105: the queue clause has members *)
